@@ -248,7 +248,7 @@ pub fn cont_history(rng: &mut Rng, fl: &str, id: &str, nkeys: usize, ncalls: usi
     for k in 0..nkeys {
         l.push(format!("new {k} {}", rng.below(5) as i64 - 1));
     }
-    l.push("g.new 0".into());
+    l.push(if rng.chance(30) { format!("g.newcap 0 {}", rng.below(9)) } else { "g.new 0".into() });
     let mut members: Vec<usize> = vec![];
     for _ in 0..ncalls {
         let k = rng.below(nkeys);
